@@ -143,6 +143,14 @@ func (h *DirHandler) GetOutbound(fws ...fbb.Address) []*fbb.Message {
 			continue
 		}
 
+		p2pOnly := m.Header.Get("X-P2POnly") == "true"
+
+		// Remove private headers. This must be done for every message
+		// we return, they should never be sent to the remote.
+		m.Header.Del("X-P2POnly")
+		m.Header.Del("X-FilePath")
+		m.Header.Del("X-Unread")
+
 		// Check unsent messages that are addressed to one of the
 		// forwarder addresses of the remote.
 		if len(fws) > 0 {
@@ -155,14 +163,9 @@ func (h *DirHandler) GetOutbound(fws ...fbb.Address) []*fbb.Message {
 			continue
 		}
 
-		if len(fws) == 0 && m.Header.Get("X-P2POnly") == "true" {
+		if p2pOnly {
 			continue // The message is P2POnly and remote is CMS
 		}
-
-		// Remove private headers
-		m.Header.Del("X-P2POnly")
-		m.Header.Del("X-FilePath")
-		m.Header.Del("X-Unread")
 
 		deliver = append(deliver, m)
 	}
